@@ -19,7 +19,10 @@ From CSL Require Import Base.Prelude Base.U64 Cbor.Head Num.Value Deposits.Depos
   Builder.Scenario Fees.Rational Fees.Fees FeeSuff.FeeModel FeeSuff.FeeSpec.
 Local Open Scope N_scope.
 
-(* per UTxO: kind (3, 5 = Plutus), ex-units of its redeemer, reference-script bytes it brings *)
+(* per UTxO: kind (0 key, 1 Byron, 2 native script, 3/4 Plutus script in the witness set with inline / witness datum,
+   5/6 Plutus script by reference with inline / witness datum), ex-units of its redeemer, reference-script bytes:
+   kinds 0-4: bytes of the script_ref its own output carries (counted per input); kinds 5/6: size of the referenced script
+   (the harness derives the reference outpoint from the size: equal sizes are one referenced script) *)
 Record uinfo : Type := mkUinfo { u_kind : N; u_mem : N; u_steps : N; u_ref : N }.
 
 Record scn : Type := mkScn {
@@ -36,7 +39,14 @@ Definition lookup_uinfo (sc : scn) (id : N) : uinfo :=
 Definition lookup_obase (sc : scn) (a x : N) : N :=
   match find (fun e => (fst (fst e) =? a) && (snd (fst e) =? x)) (sc_obase sc) with Some e => snd e | None => 0 end.
 
-Definition is_plutus (u : uinfo) : bool := (u_kind u =? 3) || (u_kind u =? 5).
+Definition is_plutus (u : uinfo) : bool := (3 <=? u_kind u) && (u_kind u <=? 6).
+Definition by_reference (u : uinfo) : bool := (5 <=? u_kind u) && (u_kind u <=? 6).
+
+(* withdrawals: reward address ids 41..51 are Plutus-script reward addresses whose redeemer carries
+   ExUnits(id * 1000, id * 1000000) (a convention of the harness); 1..11 key, 21..31 native script *)
+Definition wd_is_plutus (a : N) : bool := (41 <=? a) && (a <=? 51).
+Definition plutus_withdrawals (s : state) : list N :=
+  filter wd_is_plutus (map fst (opt_list (s_withdrawals s))).
 
 Definition z_res (r : result Z) : result N :=
   match r with Ok z => Ok (Z.to_N z) | Err => Err | Panic => Panic | OutOfFuel => OutOfFuel end.
@@ -44,21 +54,26 @@ Definition z_res (r : result Z) : result N :=
 (* min_script_fee over the redeemers of the Plutus inputs (tx_builder.rs:146-155, fees.rs:56-62) *)
 Definition ex_fee (sc : scn) (s : state) : result N :=
   let us := map (fun e => lookup_uinfo sc (fst e)) (s_inputs s) in
-  let pl := filter is_plutus us in
+  let units := map (fun u => (Z.of_N (u_mem u), Z.of_N (u_steps u))) (filter is_plutus us)
+               ++ map (fun a => (Z.of_N (a * 1000), Z.of_N (a * 1000000))) (plutus_withdrawals s) in
   match sc_ex_price sc with
   | Some (mn, md, sn, sd) =>
-      match pl with
+      match units with
       | [] => Ok 0
-      | _ => z_res (min_script_fee (Some (map (fun u => (Z.of_N (u_mem u), Z.of_N (u_steps u))) pl)) mn md sn sd)
+      | _ => z_res (min_script_fee (Some units) mn md sn sd)
       end
-  | None => match pl with [] => Ok 0 | _ => Err end
+  | None => match units with [] => Ok 0 | _ => Err end
   end.
 
 (* min_ref_script_fee over the referenced scripts (tx_builder.rs:157-167) *)
 Definition ref_fee (sc : scn) (ref_const : N) (s : state) : result N :=
-  (* get_total_ref_scripts_size keys the sizes by reference input; the harness derives the reference outpoint of a
-     kind-5 UTxO from its <refsize>, so equal sizes are one referenced script *)
-  let total := sumN (nodup N.eq_dec (filter (fun x => 0 <? x) (map (fun e => u_ref (lookup_uinfo sc (fst e))) (s_inputs s)))) + ref_const in
+  (* get_total_ref_scripts_size keys the sizes by (reference) input: a script_ref on the spent UTxO counts once per
+     input; the harness derives the reference outpoint of a kind-5/6 UTxO from its <refsize>, so equal sizes are one
+     referenced script *)
+  let us := map (fun e => lookup_uinfo sc (fst e)) (s_inputs s) in
+  let own := sumN (map u_ref (filter (fun u => negb (by_reference u)) us)) in
+  let refd := sumN (nodup N.eq_dec (filter (fun x => 0 <? x) (map u_ref (filter by_reference us)))) in
+  let total := own + refd + ref_const in
   match sc_ref_price sc with
   | Some (n, d) => z_res (min_ref_script_fee (Z.of_N total) n d)
   | None => if 0 <? total then Err else Ok 0
@@ -239,7 +254,8 @@ Record rstate : Type := mkR {
 }.
 
 Definition has_plutus_input (sc : scn) (s : state) : bool :=
-  existsb (fun e => is_plutus (lookup_uinfo sc (fst e))) (s_inputs s).
+  existsb (fun e => is_plutus (lookup_uinfo sc (fst e))) (s_inputs s)
+  || match plutus_withdrawals s with [] => false | _ => true end.
 
 Definition finish6 {A} (r : @out ostate A) (okv : A -> opres) : opres * state :=
   let o := out_orc r in
